@@ -1,7 +1,7 @@
 """Side-car contracts, one module per property.  registry() -> {unit name: Unit}."""
 import importlib
 
-MODULES = ['core', 'C04', 'dist']
+MODULES = ['core', 'C04', 'dist', 'C17']
 _reg = None
 
 
